@@ -15,7 +15,7 @@ PROP = dict(
           "continuation lines, 16000-byte lines, random bytes), chunked bodies with good / oversized / huge / negative / non-hex / empty sizes, extensions and "
           "missing terminators, 1-3 pipelined requests, byte mutations and a cut offset; libFuzzer additionally mutates raw corpus requests. Oracles: ASan, "
           "hang bound (expected < 1 ms; in-harness watchdog: 10 s wall with >= 5 s CPU in the serving thread, or 60 s wall; libFuzzer -timeout=20; confirmed by replay), no '..' in path() on the bytes [0,length()) of "
-          "every request handed over, no request without a method, the reply never contains the content of a file placed outside the web root. "
+          "every request handed over, no request without a method, route matching on every request handed over - request.is(pattern), is(method, pattern), suffix() with patterns derived from the path (exact, last byte changed, prefix + *, path + *, fixed prefix longer than the path by 1/20/60/200 bytes + *, near miss + *; 4 patterns always, 16 for a quarter of the paths) - agrees with a plain prefix comparison (and stays in bounds: paths of 16+ bytes are heap Strings), the reply never contains the content of a file placed outside the web root. "
           "(B, 'fidelity') 1-3 well-formed requests per stream described semantically (method incl. custom tokens, decoded path, distinct query pairs, "
           "header names distinct case-insensitively with values of VCHAR/SP/HTAB/obs-text, body bytes) plus encoding choices (which bytes are "
           "percent-encoded and hex case, '+' or %20, fragment after or before the query, name case on the wire and in the lookup, 0/1/several SP/HTAB around the "
@@ -29,7 +29,10 @@ PROP = dict(
           "server in 2-6 separate bursts by a feeder thread: it sends a piece, waits until the server has consumed it (TIOCOUTQ of the sending end back to 0), "
           "pauses 1-3 ms, sends the next, finally half-closes; piece boundaries are generated by kind (inside a body that is followed by another request - near "
           "its start / end / anywhere -, inside any body, inside a head, exactly at a message boundary or end of head, anywhere); same oracle: every request "
-          "handed over equals the one sent, in order, none lost. ('badline') the same as fidelity with one colon-less line inside the last header block: that request is dropped or handed over intact. "
+          "handed over equals the one sent, in order, none lost; in a third of these streams a SIGUSR1 (no-op handler installed without SA_RESTART) is sent with "
+          "pthread_kill to the thread serving the connection in one or more gaps between bursts (after the burst was consumed and the pause, i.e. while the reader waits in "
+          "select(); inside a Content-Length body, a chunked body, a head, between requests): the library may then give the connection up, so requests may be "
+          "missing from some point on, but whatever is handed over must equal what was sent (no truncated body). ('badline') the same as fidelity with one colon-less line inside the last header block: that request is dropped or handed over intact. "
           "(C, 'targets') ALL request targets of byte length <= 9 (thorough 12) over {. / a %2e %2E %2f %25} and <= 6 (thorough 7) over that alphabet plus "
           "{? # %00 %5c}, served by serveFile, plus random targets of up to ~60 tokens incl. '..', '/../', %2e%2e, %252e. ('files') GET/HEAD of existing / "
           "missing / directory paths with Range specs from a grammar over boundary numbers (0,1,9,10,11,15999..16001,39999..40001,2^31-1,2^31,2^32,-1, empty, "
